@@ -5,6 +5,7 @@ import (
 	"fmt"
 	"strconv"
 	"strings"
+	"sync/atomic"
 	"testing"
 	"time"
 
@@ -39,6 +40,9 @@ type c15Case struct {
 	// EagerWriters: goroutines that write through the new node the moment it reports itself leader (what request
 	// handlers do: check IsLeader, then write)
 	EagerWriters int `json:"eager_writers,omitempty"`
+	// TSOFault > 0: the engine's timestamp service fails the new node's TSOFault-th request once (the election reads
+	// the start revision from it right after writing the lock record)
+	TSOFault int `json:"tso_fault,omitempty"`
 }
 
 func genC15(t *rapid.T) interface{} {
@@ -71,6 +75,9 @@ func genC15(t *rapid.T) interface{} {
 		c.FollowerSyncs = rapid.SliceOfN(rapid.IntRange(0, n), 1, 3).Draw(t, "syncs")
 	}
 	c.EagerWriters = rapid.SampledFrom([]int{0, 2, 4}).Draw(t, "eager")
+	if DrawBool(t, 15, "tsoFault") {
+		c.TSOFault = rapid.IntRange(1, 4).Draw(t, "tsoFaultAt")
+	}
 	for i := 0; i < 5; i++ {
 		op := genWOp(t, len(c.Keys))
 		if op.Kind != "create" {
@@ -125,6 +132,9 @@ var c15Seq int
 func runC15(ci interface{}, st *CaseStats) error {
 	c := ci.(*c15Case)
 	st.Label("engine:" + c.Engine)
+	if c.TSOFault > 0 {
+		st.Label("timestamp-request-fails-during-takeover")
+	}
 	keys := make([]string, len(c.Keys))
 	for i, k := range c.Keys {
 		keys[i] = FullKey(k)
@@ -144,9 +154,26 @@ func runC15(ci interface{}, st *CaseStats) error {
 	env.Init = oldB.GetCurrentRevision()
 	env.LastRev = env.Init
 	// the future leader, as a follower of the old one
+	var takeoverDone, tsoFaultFired int32
+	// the new node's view of the store: optionally with one failing timestamp request
+	newKV := func(kv storage.KvStorage) storage.KvStorage {
+		if c.TSOFault <= 0 {
+			return kv
+		}
+		sh := NewShim(kv, false)
+		sh.OnTSO = func(idx int) Decision {
+			// only while the node takes over: later reads use the timestamp service too and may simply fail
+			if idx == c.TSOFault-1 && atomic.LoadInt32(&takeoverDone) == 0 {
+				atomic.StoreInt32(&tsoFaultFired, 1)
+				return FailNoApply
+			}
+			return Pass
+		}
+		return sh
+	}
 	var newB backend.Backend
 	if len(c.FollowerSyncs) > 0 && !c.Reopen {
-		newB = backend.NewBackend(eng.KV, backend.Config{Prefix: Prefix, Identity: fmt.Sprintf("new-%d", c15Seq), WatchCacheSize: 256}, NopMetrics)
+		newB = backend.NewBackend(newKV(eng.KV), backend.Config{Prefix: Prefix, Identity: fmt.Sprintf("new-%d", c15Seq), WatchCacheSize: 256}, NopMetrics)
 		st.Label("new-leader-served-follower-reads-before")
 	}
 	syncAt := map[int]bool{}
@@ -226,7 +253,7 @@ func runC15(ci interface{}, st *CaseStats) error {
 	}
 	// new leader: a second backend over the same store, brought up through the real Campaign path
 	if newB == nil {
-		newB = backend.NewBackend(kv, backend.Config{Prefix: Prefix, Identity: fmt.Sprintf("new-%d", c15Seq), WatchCacheSize: 256}, NopMetrics)
+		newB = backend.NewBackend(newKV(kv), backend.Config{Prefix: Prefix, Identity: fmt.Sprintf("new-%d", c15Seq), WatchCacheSize: 256}, NopMetrics)
 	}
 	started := make(chan struct{}, 1)
 	// a request that arrives exactly while the election hands the initial revision to the backend: if the node already
@@ -284,6 +311,14 @@ func runC15(ci interface{}, st *CaseStats) error {
 	}
 	if !le.IsLeader() {
 		return Inconclusivef("elected but IsLeader()==false")
+	}
+	// the election's first renewal round runs concurrently with the start callback: let it pass before disarming
+	if c.TSOFault > 0 {
+		time.Sleep(3 * time.Millisecond)
+	}
+	atomic.StoreInt32(&takeoverDone, 1)
+	if atomic.LoadInt32(&tsoFaultFired) == 1 {
+		st.Label("timestamp-request-failed-during-takeover")
 	}
 	if handoverServed {
 		if handoverRev <= maxBefore {
